@@ -214,10 +214,11 @@ def build(tier, repo):
         r4.violation("lp:returns conelp(...) unchanged", m.where(last, lp), "lp post-processes conelp's result", "return conelp(...)", pf.norm_expr(last)[:60])
     mm = w.mods["modeling"]
     sv = w.func("modeling", "op.solve")
-    assigns = {pf.norm_expr(s.targets[0]): pf.norm_expr(s.value) for s in sv.body if isinstance(s, ast.Assign)}
+    from .. import rules_common as rc5
+    assigns = rc5.alias_resolved_assigns(sv, within_top_level_only=True)
     for tgt, val in (("self.status", "sol['status']"), ("x.value", "sol['x']"),
                      ("inequalities[0].multiplier.value", "sol['z']")):
-        if assigns.get(tgt) == val:
+        if assigns.get(assigns["__resolve__"](tgt)) == val:
             r4.ok("op.solve:%s = %s" % (tgt, val), mm.where(sv, sv))
         else:
             r4.violation("op.solve:%s = %s" % (tgt, val), mm.where(sv, sv), "op.solve does not copy %s from the solver result on its straight-line path" % val, val, assigns.get(tgt))
